@@ -369,7 +369,8 @@ func jwsTables(c *Check) {
 			continue
 		}
 		ok := returnsWhere(pg, func(s *PState) bool { return retNilErr(s, 1) })
-		c.mustPass(pg, "O-C02.4", "JWS verification restricted to the allow-list", "JWS Verify succeeds", ok, AG("+IsNil((*github.com/golang-jwt/jwt/v4.Parser).Parse(github.com/golang-jwt/jwt/v4.NewParser(github.com/golang-jwt/jwt/v4.WithValidMethods("+listName+")**), **)#1)"))
+		c.mustPass(pg, "O-C02.4", "JWS verification restricted to the allow-list", "JWS Verify succeeds", ok, AnyOf(AG("+IsNil((*github.com/golang-jwt/jwt/v4.Parser).Parse(github.com/golang-jwt/jwt/v4.NewParser(github.com/golang-jwt/jwt/v4.WithValidMethods("+listName+")**), **)#1)"),
+			AG("+IsNil(github.com/golang-jwt/jwt/v4.Parse(**github.com/golang-jwt/jwt/v4.WithValidMethods("+listName+")**)#1)")))
 	}
 }
 
